@@ -130,13 +130,18 @@ pub fn run_session(case: &Value) -> Value {
                             }
                         }
                     }
-                    if !done {
+                    // only a running program is interrupted here (the phases in which the shell
+                    // reports an error or prints the prompt belong to C03's schedules)
+                    let st = s.probe().state;
+                    if !done && (st == "Running" || st == "InputRunning") {
                         intpre = out_so_far(&items(&evs));
                         let p = s.probe();
                         let pj = probe_json(&p);
                         intprobe = json!({"line": pj["line_pc"], "vars": pj["vars"], "state": p.state});
                         s.interrupt();
                         ints = 1;
+                        evs.extend(s.drain());
+                    } else if !done {
                         evs.extend(s.drain());
                     }
                 } else {
@@ -156,4 +161,82 @@ pub fn run_session(case: &Value) -> Value {
         }
     }
     json!({"id": case["id"], "cmds": recs, "anomalies": anomalies})
+}
+
+/// Expand a session carrying {"sweep": {"cmd": i, "max": M, "inspect": bool}} into one session per
+/// interruption point: the command at index i (0-based) is run once without interruption, one
+/// opcode at a time, to count its opcodes N; then for every k in 1..N (all of them when N <= M,
+/// else M evenly spread) a session is produced in which an interrupt is delivered after k opcodes
+/// of that command, followed (optionally) by an inspecting direct statement and by CONT.
+pub fn expand_sweep(case: &Value) -> Vec<Value> {
+    let sw = &case["sweep"];
+    if sw.is_null() {
+        return vec![case.clone()];
+    }
+    let idx = sw["cmd"].as_u64().unwrap_or(0) as usize;
+    let max = sw["max"].as_u64().unwrap_or(200) as usize;
+    let cmds = case["cmds"].as_array().cloned().unwrap_or_default();
+    if idx >= cmds.len() {
+        return vec![];
+    }
+    // dry run
+    let mut s = Session::new();
+    s.drain();
+    for c in &cmds[..idx] {
+        let text = render::command_text(c);
+        if s.enter(&text).is_some() {
+            return vec![];
+        }
+        s.drain();
+    }
+    let text = render::command_text(&cmds[idx]);
+    if s.enter(&text).is_some() {
+        return vec![];
+    }
+    let mut n = 0usize;
+    loop {
+        let st = s.probe().state;
+        if st != "Running" && st != "InputRunning" && n > 0 {
+            n += 1;
+            break;
+        }
+        n += 1;
+        if n > 200_000 {
+            break;
+        }
+        if let Some(ev) = s.step(1) {
+            if matches!(ev, Ev::Stopped | Ev::Input(..) | Ev::Inkey | Ev::Panic(_) | Ev::Load(_) | Ev::Run(_) | Ev::Save(_)) {
+                break;
+            }
+        }
+    }
+    // after the last of these steps the program is no longer running: nothing to interrupt
+    let total = n.saturating_sub(2);
+    let ks: Vec<usize> = if total <= max {
+        (1..=total).collect()
+    } else {
+        (0..max).map(|i| 1 + i * total / max).collect()
+    };
+    let mut out = vec![];
+    for k in ks {
+        let mut cs = cmds[..idx].to_vec();
+        let mut c = cmds[idx].clone();
+        c["int_after"] = json!(k);
+        cs.push(c);
+        if let Some(insp) = sw.get("inspect") {
+            if !insp.is_null() {
+                cs.push(insp.clone());
+            }
+        }
+        cs.push(json!({"k":"direct","stmts":[{"k":"cont"}]}));
+        for c in &cmds[idx + 1..] {
+            cs.push(c.clone());
+        }
+        let mut d = case.clone();
+        d["cmds"] = Value::Array(cs);
+        d["id"] = json!(format!("{}#{}", case["id"].as_str().unwrap_or("s"), k));
+        d.as_object_mut().unwrap().remove("sweep");
+        out.push(d);
+    }
+    out
 }
